@@ -307,7 +307,7 @@ CHECKS = {
          "annotations change only the names, the doc comment only the help. Tie: translation-validation style -- a seeded family "
          "of 40 (quick) / 600 (thorough) struct, tuple-struct, enum and nested-parser definitions is compiled with the real "
          "#[derive(Bpaf)] AND as hand-written combinators PRINTED FROM THE EXTRACTED COQ PLAN, in one crate built against /repo "
-         "and its bpaf_derive; both are run on 13 vectors per type: equal Debug value, equal failure class, equal help text.",
+         "and its bpaf_derive; both are run on 13 vectors per type: equal Debug value, equal failure class, equal help text. Session 6: the doc comment of an `options`/`command` type -- Model/Derive.v doc_blocks (bpaf_derive LineIter: blocks cut at double empty lines) and options_help (split_options_help: description / header / footer) with C17_options_annotation_overrides_its_part and _only_its_part (an explicit descr/header/footer annotation replaces exactly the part it names, every other part depends on the doc comment and its own annotation only); the hand-written equivalents take their descr/header/footer from the extracted model.",
          "4/C17", "Rocq proof of the derive rules (naming, implicit consumers, locality of annotations) + derive-vs-hand-written differential printed from the extracted rules"),
 }
 
